@@ -28,11 +28,13 @@ def showScreen (x : Int × Int × Int × Int × Int × Int) : String :=
   match x with
   | (a, b, c, d, e, f) => s!"{a},{b},{c},{d},{e},{f}"
 
-/-- the screen list is what the application's hooks supply: `n` screens (i+1, i, 0, w, h, 0); the
+/-- the screen list is what the application's hooks supply: `n` screens; the
 library's default hooks: one screen (1, 0, 0, w, h, 0).  More than two are abbreviated. -/
 def showScreens (n : Int) (w h : Int) : String :=
   let k := if n < 0 then 1 else n.toNat
-  let scr (i : Nat) : Int × Int × Int × Int × Int × Int := ((i : Int) + 1, (i : Int), 0, w, h, 0)
+  -- the harness' hook: screen i = (id i+1, x i, y 2i+1, w, h, flags i+7); library default: (1,0,0,w,h,0)
+  let scr (i : Nat) : Int × Int × Int × Int × Int × Int :=
+    if n < 0 then (1, 0, 0, w, h, 0) else ((i : Int) + 1, (i : Int), 2 * (i : Int) + 1, w, h, (i : Int) + 7)
   if k ≤ 2 then ";".intercalate ((List.range k).map fun i => showScreen (scr i))
   else s!"n={k};{showScreen (scr 0)};{showScreen (scr (k - 1))}"
 
